@@ -170,7 +170,7 @@ func raftLog.StoreLogs
 func raftLog.GetLog
   props C15
   requires LogOK(s) && log != nil
-  modifies *log, lastGetKey, lastGetCF
+  modifies *log, lastGetKey, lastGetCF, lastGetFound
   ensures C15/lookup-key: lastGetKey == be64(index) && lastGetCF == s.cfHandles[logTable]
 
 // the INCLUSIVE range [min, max] is removed: the wrapper's range is half open, hence max+1
@@ -202,9 +202,13 @@ func raftLog.Set
 func raftLog.Get
   props C15
   requires LogOK(s)
-  modifies lastGetKey, lastGetCF
+  modifies lastGetKey, lastGetCF, lastGetFound
   ensures C15/stable-table: lastGetKey == bytes(key) && lastGetCF == s.cfHandles[stableTable]
   ensures isnil(result_1) && vals8(s.cfHandles[stableTable], bytes(key)) ==> len(result_0) == 8
+  // "keeps its key/value settings": not-found is answered only for a key the engine does not hold
+  // (a key whose stored value is EMPTY is found)
+  ensures C15/not-found-only-for-absent-keys: !isnil(result_1) && result_1 == ErrKeyNotFound ==> !lastGetFound
+  ensures C15/a-stored-value-is-returned: lastGetFound ==> isnil(result_1)
 func raftLog.SetUint64
   props C15
   requires LogOK(s)
@@ -214,7 +218,7 @@ func raftLog.SetUint64
 func raftLog.GetUint64
   props C15
   requires LogOK(s) && vals8(s.cfHandles[stableTable], bytes(key))
-  modifies lastGetKey, lastGetCF
+  modifies lastGetKey, lastGetCF, lastGetFound
 
 // ---- C16: backups through the node ----------------------------------------------------
 
